@@ -222,6 +222,8 @@ func checkC17(c *Ctx) {
 
 	// ---- O5 configuration table ------------------------------------------------------------------------
 	c.checkPromConfig("O5 callback-table")
+	c.checkPromConfiguredBuckets("O5 configured-buckets")
+	c.checkPromSeriesStay("O9 series-stay-registered")
 
 	// ---- O6 vector identity -----------------------------------------------------------------------------
 	c.checkVectorIdentity("O6 vector-identity")
@@ -1736,4 +1738,127 @@ func nz(s, alt string) string {
 		return alt
 	}
 	return s
+}
+
+// checkPromSeriesStay (O9): a vector, once registered, stays registered and cached for the reporter's
+// lifetime - nothing in the package unregisters a collector or deletes from the by-id maps. (The root
+// scope closes a reporter that implements io.Closer right after the final report pass: a Close that
+// unregisters makes everything that pass delivered disappear from the next gather.)
+func (c *Ctx) checkPromSeriesStay(rule string) {
+	const pk = "prometheus"
+	fields := map[*types.Var]bool{}
+	for _, n := range []string{"counters", "gauges", "timers"} {
+		if f := c.field(pk, "reporter", n); f != nil {
+			fields[f] = true
+		}
+	}
+	if len(fields) != 3 {
+		c.missing(rule, "prometheus.reporter.{counters,gauges,timers}")
+		return
+	}
+	nFuncs, nBad := 0, 0
+	for _, fn := range c.funcsOfPkg(pk) {
+		fn := fn
+		nFuncs++
+		instrsOf(fn, func(in ssa.Instruction) {
+			ci, ok := in.(ssa.CallInstruction)
+			if !ok {
+				return
+			}
+			com := ci.Common()
+			name := ""
+			if com.IsInvoke() {
+				name = com.Method.Name()
+			} else if g := com.StaticCallee(); g != nil {
+				name = g.Name()
+			}
+			if name == "Unregister" {
+				nBad++
+				c.bad(rule, c.fnKey(fn)+":unregister", in.Pos(), "a registered collector is unregistered: the values the last report pass delivered to it are gone from the next gather (the root scope closes an io.Closer reporter right after its final pass)", c.describe(in))
+			}
+			if b, isB := com.Value.(*ssa.Builtin); isB && b.Name() == "delete" && len(com.Args) > 0 {
+				if f, _ := loadedField(stripConv(com.Args[0])); fields[f] {
+					nBad++
+					c.bad(rule, c.fnKey(fn)+":delete", in.Pos(), "an entry is deleted from the reporter's by-id vector cache: the next use of that metric registers a second collector for the same name (rejected by Prometheus) instead of finding the existing one", c.describe(in))
+				}
+			}
+		})
+	}
+	if nBad == 0 {
+		c.ok(rule, pk, token.NoPos, fmt.Sprintf("no Unregister call and no deletion from the vector caches in %d functions", nFuncs))
+	}
+}
+
+// checkPromConfiguredBuckets (O5): the default timer buckets / objectives handed to NewReporter by the
+// configuration are exactly the configured ones: the bucket slice is built by appending onto an EMPTY
+// slice (a slice pre-sized with make(n) and then appended to starts with n zero bounds - Prometheus
+// panics on the duplicate bound, past the error callback).
+func (c *Ctx) checkPromConfiguredBuckets(rule string) {
+	const pk = "prometheus"
+	fn := c.fn(pk, "Configuration", "NewReporter")
+	fOpt := c.field(pk, "Options", "DefaultHistogramBuckets")
+	if fn == nil || fOpt == nil {
+		c.missing(rule, "prometheus.Configuration.NewReporter / Options.DefaultHistogramBuckets")
+		return
+	}
+	key := c.fnKey(fn) + ":buckets"
+	var st *ssa.Store
+	instrsOf(fn, func(in ssa.Instruction) {
+		if s, ok := in.(*ssa.Store); ok {
+			if f, _ := addrField(s.Addr); f == fOpt {
+				st = s
+			}
+		}
+	})
+	if st == nil {
+		c.bad(rule, key, fn.Pos(), "the configured default histogram buckets are not handed to the reporter")
+		return
+	}
+	nApp := 0
+	why := ""
+	seen := map[ssa.Value]bool{}
+	var walk func(v ssa.Value, d int) bool
+	walk = func(v ssa.Value, d int) bool {
+		v = canon(stripConv(v))
+		if d == 0 {
+			why = "origin not traced"
+			return false
+		}
+		if seen[v] {
+			return true
+		}
+		seen[v] = true
+		switch x := v.(type) {
+		case *ssa.Phi:
+			for _, e := range x.Edges {
+				if !walk(e, d-1) {
+					return false
+				}
+			}
+			return true
+		case *ssa.Call:
+			if isBuiltin(x, "append") {
+				nApp++
+				return walk(x.Call.Args[0], d-1)
+			}
+		}
+		if emptyPrivateSlice(v) {
+			return true
+		}
+		if ms, ok := v.(*ssa.MakeSlice); ok {
+			why = "the slice the bounds are appended to is created with a non-zero length (" + c.describe(ms) + "): the reporter gets that many zero bounds in front of the configured ones - two equal bounds make Prometheus panic when the first timer is created, past the error callback"
+			return false
+		}
+		why = fmt.Sprintf("the bucket slice does not start empty (%T)", v)
+		return false
+	}
+	ok := walk(st.Val, 10) && nApp > 0
+	if ok {
+		c.ok(rule, key, st.Pos(), "default timer buckets = the configured bounds appended, in order, onto an empty slice")
+	} else {
+		if why == "" {
+			why = "the configured bounds are not appended to the slice"
+		}
+		c.bad(rule, key, st.Pos(), "the default timer buckets handed to the reporter are not exactly the configured bounds: "+why, c.describe(st))
+	}
 }
